@@ -22,7 +22,8 @@ EXPLANATION = (
     "contig-name delta codec clauses of C03 (run-length counting, cap, token split/join), since a record whose "
     "name reads back differently does not equal the input; (LINE) the record reader appends every sequence line it "
     "reads and tests a line's raw length only against zero (shared with C19-G3), so no base is lost to the way "
-    "lines are wrapped or terminated.")
+    "lines are wrapped or terminated; (LOAD) every accessor loads every metadata batch, in order (shared with C08/C03), so "
+    "a listed sample cannot come back without its records.")
 UNDECIDED = "the full claim 'extracts without error' (depends on the data behaviour of C01/C09)"
 
 
